@@ -421,7 +421,7 @@ fn c18_cmp_table() {
 }
 
 // @harness name=c18_set_stream props=C18,C02,C09 tier=quick timeout=2400
-// @bound every geometry of the 24-byte buffer, every role / current selection / State / payload_rem / padding_rem; requested selection: None or any input-stream type; two consecutive calls
+// @bound every geometry of the 24-byte buffer, every role / current selection / State / payload_rem / padding_rem; requested selection: None or ANY of the 11 record types; second call with None|Stdin|Data
 // @functions stream::Parser::set_stream, stream::Parser::active_stream, discard_stream, compress
 #[kani::proof]
 #[kani::unwind(4)]
@@ -438,7 +438,8 @@ fn c18_set_stream() {
     let (pr, dr): (u16, u8) = (kani::any(), kani::any());
     let mut p = mk(&cfg, buf, g, st0, role, any_id(), cur, pr, dr, Vec::new(), 0);
     let (plen, rlen) = (g.1 - g.0, g.3 - g.2);
-    let req: Option<fcgi::RecordType> = match kani::any::<u8>() { 0 => None, 1 => Some(fcgi::RecordType::Stdin), _ => Some(fcgi::RecordType::Data) };
+    // requested selection: None or ANY record type (also those that are no input stream of any role)
+    let req: Option<fcgi::RecordType> = { let t: u8 = kani::any(); kani::assume(t <= 11); if t == 0 { None } else { Some(fcgi::RecordType::try_from(t).unwrap()) } };
     let r = p.set_stream(req);
     // reference: allowed iff None, or member of the role at or after the current selection
     let allowed = match req { None => true, Some(s) => ref_cmp(role, s, cur) != Ordering::Less };
@@ -451,7 +452,8 @@ fn c18_set_stream() {
         if i < B { assert!(p.buffer[i] == buf[i]); }
         kani::cover!(!allowed && cur.is_none(), "None is absorbing: any Some(..) after None is rejected");
         kani::cover!(!allowed && cur == Some(fcgi::RecordType::Data), "moving backwards Data -> Stdin rejected");
-        kani::cover!(!allowed && role == fcgi::Role::Responder, "stream outside the role rejected");
+        kani::cover!(!allowed && role == fcgi::Role::Responder && req == Some(fcgi::RecordType::Data), "input stream outside the role rejected");
+        kani::cover!(!allowed && cur.is_some() && req == Some(fcgi::RecordType::Stdout), "record type that is no input stream rejected while a stream is active");
         kani::cover!(allowed && req == cur && plen > 0, "re-selecting the current stream keeps buffered data");
     } else {
         assert!(p.active_stream() == req, "accepted selection not stored");
